@@ -856,7 +856,23 @@ pub fn gen_case(seed: u64, id: u64) -> Case {
                         _ => String::new(),
                     }
                 };
-                let form = rng.below(if tool == "xq" { 6 } else { 4 });
+                // every element of the document, in document order (paths over all children)
+                let mut all_elems: Vec<Vec<usize>> = vec![];
+                {
+                    fn walk(g: &G, path: &mut Vec<usize>, out: &mut Vec<Vec<usize>>) {
+                        if let G::El { kids, .. } = g {
+                            out.push(path.clone());
+                            for (i, k) in kids.iter().enumerate() {
+                                path.push(i);
+                                walk(k, path, out);
+                                path.pop();
+                            }
+                        }
+                    }
+                    walk(&root, &mut vec![], &mut all_elems);
+                }
+                let is_prefix = |a: &Vec<usize>, b: &Vec<usize>| a.len() <= b.len() && b[..a.len()] == a[..];
+                let form = [0usize, 1, 2, 3, 6, 7, 8, 4, 5][rng.below(if tool == "xq" { 9 } else { 7 })];
                 let wrap = |rng: &mut Rng, base: &str| -> String {
                     match rng.below(3) {
                         0 => base.to_string(),
@@ -865,6 +881,35 @@ pub fn gen_case(seed: u64, id: u64) -> Case {
                     }
                 };
                 match form {
+                    6 => {
+                        // everything after the element in document order, its own descendants excluded
+                        expr = format!("{}/following::*", wrap(&mut rng, &base));
+                        paths = all_elems.iter().filter(|p| **p > own && !is_prefix(&own, p)).cloned().collect();
+                        what = "elements following one element in document order".into();
+                    }
+                    7 => {
+                        // everything before the element in document order, its ancestors excluded
+                        expr = format!("{}/preceding::*", wrap(&mut rng, &base));
+                        paths = all_elems.iter().filter(|p| **p < own && !is_prefix(p, &own)).cloned().collect();
+                        what = "elements preceding one element in document order".into();
+                    }
+                    8 => {
+                        // a union written against document order
+                        let n1 = rng.ps(&["a", "b", "c"]).to_string();
+                        let n2 = rng.ps(&["a", "b", "c"]).to_string();
+                        let mut p1 = vec![];
+                        named_paths(&root, &n1, &mut vec![], &mut p1);
+                        let mut p2 = vec![];
+                        named_paths(&root, &n2, &mut vec![], &mut p2);
+                        expr = format!("//{} | {} | //{}", qname_for(&n2, caller_p), base, qname_for(&n1, caller_p));
+                        let mut u: Vec<Vec<usize>> = p1;
+                        u.extend(p2);
+                        u.push(own.clone());
+                        u.sort();
+                        u.dedup();
+                        paths = u;
+                        what = "union of three paths, in document order whatever the order of the operands".into();
+                    }
                     0 => {
                         expr = format!("{}/preceding-sibling::*", wrap(&mut rng, &base));
                         paths = sibs_before.clone();
